@@ -7949,6 +7949,13 @@ func (p *Parser) closureAfterArrow(firstSpan *position.Location, params []ast.Pa
 	var location *position.Location
 	arrowTok, ok := p.matchOk(token.THIN_ARROW, token.WIGGLY_ARROW)
 	if !ok {
+		// matchOk returns no token on a mismatch: report the unexpected
+		// token the way consume does and wrap it in the invalid node
+		if p.lookahead.Type != token.ERROR {
+			p.errorExpected("-> or ~>")
+			p.updateErrorMode(true)
+		}
+		arrowTok = p.advance()
 		return ast.NewInvalidNode(
 			arrowTok.Location(),
 			arrowTok,
